@@ -66,6 +66,11 @@ def rule_line(ctx) -> None:
     if not writes:
         ctx.violation("C16.LINE", f"{UNBUF}/write-missing", fn.loc(), "the appender never writes")
         return
+    from .. import hazards
+    for o, w in hazards.raw_write_unchecked(ctx, fn):
+        ctx.violation("C16.LINE", f"{UNBUF}/whole-line-or-error", fn.loc(w),
+                      f"`{src(w)[:40]}` goes through a handle opened with buffering=0 and its byte count is dropped: one write(2) may store only part of the line (pipe, signal, size limit) "
+                      "without raising, so the record is torn and the next record is glued to the fragment; the buffered handle writes everything or raises")
     wn = {n for n, _ in writes}
 
     def step(n, s, lab, t):
